@@ -357,6 +357,57 @@ where
   total
 }
 
+// ---------------------------------------------------------------------------------------------
+// post-mortem journal: when HPXMC_JOURNAL names a directory (set by ./check after an engine died
+// abnormally -- abort on a failed allocation, kill by the memory cap, time-out), every worker
+// thread overwrites its own file with the case it is about to hand to the subject.  After the next
+// abnormal death the files hold the cases that were in flight; ./check replays each of them alone
+// in a capped subprocess to find the call that does not come back.
+// ---------------------------------------------------------------------------------------------
+pub fn journal_dir() -> Option<&'static String> {
+  static DIR: std::sync::OnceLock<Option<String>> = std::sync::OnceLock::new();
+  DIR.get_or_init(|| std::env::var("HPXMC_JOURNAL").ok().filter(|d| !d.is_empty())).as_ref()
+}
+
+pub fn journal<F: FnOnce() -> Value>(api: &str, case: F) {
+  use std::io::{Seek, SeekFrom, Write};
+  // the file of a worker is removed when the worker ends normally: what is left after an abnormal
+  // death are the cases of the threads that were alive
+  struct Jf(std::fs::File, String);
+  impl Drop for Jf {
+    fn drop(&mut self) {
+      let _ = std::fs::remove_file(&self.1);
+    }
+  }
+  impl Jf {
+    fn set_len(&mut self, n: u64) -> std::io::Result<()> { self.0.set_len(n) }
+    fn seek(&mut self, p: SeekFrom) -> std::io::Result<u64> { self.0.seek(p) }
+    fn write_all(&mut self, b: &[u8]) -> std::io::Result<()> { self.0.write_all(b) }
+    fn flush(&mut self) -> std::io::Result<()> { self.0.flush() }
+  }
+  thread_local! { static JF: std::cell::RefCell<Option<Jf>> = std::cell::RefCell::new(None); }
+  let dir = match journal_dir() {
+    Some(d) => d,
+    None => return,
+  };
+  static NEXT: std::sync::atomic::AtomicUsize = std::sync::atomic::AtomicUsize::new(0);
+  JF.with(|jf| {
+    let mut jf = jf.borrow_mut();
+    if jf.is_none() {
+      let k = NEXT.fetch_add(1, std::sync::atomic::Ordering::SeqCst);
+      let path = format!("{}/inflight-{}.json", dir, k);
+      *jf = std::fs::File::create(&path).ok().map(|f| Jf(f, path));
+    }
+    if let Some(f) = jf.as_mut() {
+      let text = json!({"api": api, "case": case()}).to_string();
+      let _ = f.set_len(0);
+      let _ = f.seek(SeekFrom::Start(0));
+      let _ = f.write_all(text.as_bytes());
+      let _ = f.flush();
+    }
+  });
+}
+
 /// Call the subject, turning a panic into `Err(message)`.
 pub fn guarded<T, F: FnOnce() -> T>(f: F) -> Result<T, String> {
   match std::panic::catch_unwind(std::panic::AssertUnwindSafe(f)) {
